@@ -1,7 +1,22 @@
-// C04: aggregate statements through the real FileExecutor vs the Lean engine model (and its executable spec).
+// C04: GROUP BY — one row per group, every aggregate computed from that group's rows.
+//
+// Two streams of cases, both run through the real code:
+//  (1) free-form aggregate statements (queries.rs generator: 1-4 select items mixing keys, aggregates, transforms,
+//      expressions as arguments; WHERE / GROUP BY / HAVING in any order) through FileExecutor — correspondence with
+//      the Lean engine model, and the three-way comparison with the executable Lean specification (Spec/Agg.lean);
+//  (2) typed statements built from a small AST over a table with TEXT / INT / REAL / BOOLEAN / TIMESTAMP columns,
+//      biased towards all-NULL argument groups, single-row groups, p ∈ {0, .5, .99, 1}, HAVING with hidden
+//      aggregates and transforms — for these an independent reference written here (from the property sentence,
+//      not from the engine) computes the expected table from the admitted rows, and the implementation's table
+//      (ExecutionEngine, batch configuration) is compared with it cell by cell.
+use std::cmp::Ordering;
+
+use sqlgrep::model::{Float, Value, ValueType};
+
 use crate::engine_run::*;
 use crate::queries::*;
 use crate::run::{Params, Run};
+use crate::runq::{parse_tables, run_engine_batch, RowsOutcome};
 use crate::util::Rng;
 
 pub fn gen_input(rng: &mut Rng, n: usize, null_pct: u64, extreme: bool) -> Vec<String> {
@@ -25,10 +40,345 @@ fn agg_tag(text: &str, r: &BatchResult) -> String {
     format!("{}|g{}|h{}|w{}|{}|rows{}", aggs.join(""), text.contains("GROUP BY") as u8, text.contains("HAVING") as u8, text.contains("WHERE") as u8, r.status, r.records().len().min(4))
 }
 
+// ---------------------------------------------------------------------------------------------------------------
+// typed stream: table, statements as data, reference
+
+pub const C04_DEF: &str = "CREATE TABLE t(line = '^([a-z]+)?;(-?[0-9]+)?;(-?[0-9]+)?;([^;]+)?;([^;]+)?;(true|false)?;(?:([0-9]{4})-([0-9]{2})-([0-9]{2}))?$', line[1] => k TEXT, line[2] => v INT, line[3] => w INT, line[4] => r REAL, line[5] => s TEXT, line[6] => b BOOLEAN, line[7], line[8], line[9] => ts TIMESTAMP);";
+
+const COLS: &[&str] = &["k", "v", "w", "r", "s", "b", "ts"];
+const K: usize = 0;
+const V: usize = 1;
+const W: usize = 2;
+const R: usize = 3;
+const S: usize = 4;
+const B: usize = 5;
+const TS: usize = 6;
+
+#[derive(Clone, Debug, PartialEq)]
+enum AggK {
+    CountStar,
+    Count(usize),
+    CountDistinct(usize),
+    Sum(usize),
+    Min(usize),
+    Max(usize),
+    Avg(usize),
+    Stddev(usize, bool),
+    Percentile(usize, &'static str),
+    BoolAnd(usize),
+    BoolOr(usize),
+    ArrayAgg(usize),
+    StringAgg(usize, &'static str),
+}
+
+impl AggK {
+    fn sql(&self) -> String {
+        match self {
+            AggK::CountStar => "COUNT(*)".to_owned(),
+            AggK::Count(c) => format!("COUNT({})", COLS[*c]),
+            AggK::CountDistinct(c) => format!("COUNT(DISTINCT {})", COLS[*c]),
+            AggK::Sum(c) => format!("SUM({})", COLS[*c]),
+            AggK::Min(c) => format!("MIN({})", COLS[*c]),
+            AggK::Max(c) => format!("MAX({})", COLS[*c]),
+            AggK::Avg(c) => format!("AVG({})", COLS[*c]),
+            AggK::Stddev(c, var) => format!("{}({})", if *var { "VARIANCE" } else { "STDDEV" }, COLS[*c]),
+            AggK::Percentile(c, p) => format!("PERCENTILE({}, {})", COLS[*c], p),
+            AggK::BoolAnd(c) => format!("BOOL_AND({})", COLS[*c]),
+            AggK::BoolOr(c) => format!("BOOL_OR({})", COLS[*c]),
+            AggK::ArrayAgg(c) => format!("ARRAY_AGG({})", COLS[*c]),
+            AggK::StringAgg(c, d) => format!("STRING_AGG({}, '{}')", COLS[*c], d),
+        }
+    }
+    fn col(&self) -> Option<usize> {
+        match self {
+            AggK::CountStar => None,
+            AggK::Count(c) | AggK::CountDistinct(c) | AggK::Sum(c) | AggK::Min(c) | AggK::Max(c) | AggK::Avg(c) | AggK::Stddev(c, _)
+            | AggK::Percentile(c, _) | AggK::BoolAnd(c) | AggK::BoolOr(c) | AggK::ArrayAgg(c) | AggK::StringAgg(c, _) => Some(*c),
+        }
+    }
+    fn name(&self) -> &'static str {
+        match self {
+            AggK::CountStar => "count*", AggK::Count(_) => "count", AggK::CountDistinct(_) => "countd", AggK::Sum(_) => "sum",
+            AggK::Min(_) => "min", AggK::Max(_) => "max", AggK::Avg(_) => "avg", AggK::Stddev(_, _) => "stddev",
+            AggK::Percentile(_, _) => "pct", AggK::BoolAnd(_) => "and", AggK::BoolOr(_) => "or", AggK::ArrayAgg(_) => "arr", AggK::StringAgg(_, _) => "str",
+        }
+    }
+    /// INT-valued whatever the input (usable under an arithmetic wrapper and in HAVING against an INT constant)
+    fn int_valued(&self) -> bool {
+        match self {
+            AggK::CountStar | AggK::Count(_) | AggK::CountDistinct(_) => true,
+            AggK::Sum(c) | AggK::Min(c) | AggK::Max(c) | AggK::Avg(c) => *c == V || *c == W,
+            _ => false,
+        }
+    }
+}
+
+#[derive(Clone, Debug)]
+enum Item {
+    Key(usize),                                  // index into `group`
+    Agg(AggK, Option<(&'static str, i64)>),      // optional arithmetic wrapper `agg op const`
+}
+
+#[derive(Clone, Debug)]
+enum Pred { VPos, WNotNull, KNotA, BTrue }
+
+#[derive(Clone, Debug)]
+struct TypedQuery {
+    group: Vec<usize>,
+    items: Vec<Item>,
+    wher: Option<Pred>,
+    having: Option<(AggK, &'static str, i64)>,
+}
+
+impl TypedQuery {
+    fn sql(&self) -> String {
+        let items: Vec<String> = self.items.iter().map(|it| match it {
+            Item::Key(i) => COLS[self.group[*i]].to_owned(),
+            Item::Agg(a, None) => a.sql(),
+            Item::Agg(a, Some((op, c))) => format!("{} {} {}", a.sql(), op, c),
+        }).collect();
+        let mut q = format!("SELECT {} FROM t", items.join(", "));
+        if let Some(p) = &self.wher {
+            q.push_str(match p { Pred::VPos => " WHERE v > 0", Pred::WNotNull => " WHERE w IS NOT NULL", Pred::KNotA => " WHERE k != 'a'", Pred::BTrue => " WHERE b" });
+        }
+        if !self.group.is_empty() {
+            q.push_str(&format!(" GROUP BY {}", self.group.iter().map(|c| COLS[*c]).collect::<Vec<_>>().join(", ")));
+        }
+        if let Some((a, op, c)) = &self.having {
+            q.push_str(&format!(" HAVING {} {} {}", a.sql(), op, c));
+        }
+        q
+    }
+}
+
+fn gen_agg(rng: &mut Rng) -> AggK {
+    match rng.below(17) {
+        0 => AggK::CountStar,
+        1 | 2 => AggK::Count(*rng.pick(&[K, V, W, R, S, B, TS])),
+        3 => AggK::CountDistinct(*rng.pick(&[K, V, W, S, TS])),
+        4 | 5 => AggK::Sum(*rng.pick(&[V, W, R])),
+        6 | 7 => AggK::Min(*rng.pick(&[K, S, TS, B, V, R, TS, K])),
+        8 | 9 => AggK::Max(*rng.pick(&[K, S, TS, B, W, R, TS, S])),
+        10 => AggK::Avg(*rng.pick(&[V, W, R])),
+        11 => AggK::Stddev(*rng.pick(&[V, W, R]), rng.chance(1, 2)),
+        12 | 13 => AggK::Percentile(*rng.pick(&[V, K, R, TS, W]), *rng.pick(&["0.0", "0.5", "0.99", "1.0"])),
+        14 => if rng.chance(1, 2) { AggK::BoolAnd(B) } else { AggK::BoolOr(B) },
+        15 => AggK::ArrayAgg(*rng.pick(&[V, K, TS, B])),
+        _ => AggK::StringAgg(*rng.pick(&[K, S]), *rng.pick(&[",", "", "; "])),
+    }
+}
+
+fn gen_typed_query(rng: &mut Rng) -> TypedQuery {
+    let group: Vec<usize> = match rng.below(6) { 0 => vec![], 1 | 2 => vec![K], 3 => vec![W], 4 => vec![K, W], _ => vec![*rng.pick(&[B, TS, S])] };
+    let mut items = Vec::new();
+    for _ in 0..rng.below(4) + 1 {
+        if !group.is_empty() && rng.chance(1, 4) {
+            items.push(Item::Key(rng.below(group.len())));
+        } else {
+            let a = gen_agg(rng);
+            let wrap = if a.int_valued() && rng.chance(1, 4) { Some((*rng.pick(&["+", "*", "-"]), *rng.pick(&[1i64, 2, 10]))) } else { None };
+            items.push(Item::Agg(a, wrap));
+        }
+    }
+    let wher = if rng.chance(1, 3) { Some(rng.pick(&[Pred::VPos, Pred::WNotNull, Pred::KNotA, Pred::BTrue]).clone()) } else { None };
+    let having = if rng.chance(2, 5) {
+        // an aggregate of the select list, or a hidden one that appears only in HAVING
+        let from_list: Vec<AggK> = items.iter().filter_map(|it| match it { Item::Agg(a, _) if a.int_valued() => Some(a.clone()), _ => None }).collect();
+        let a = if !from_list.is_empty() && rng.chance(1, 2) { rng.pick(&from_list).clone() } else {
+            rng.pick(&[AggK::CountStar, AggK::Count(V), AggK::Count(S), AggK::Sum(V), AggK::Max(W), AggK::Min(V), AggK::CountDistinct(K)]).clone()
+        };
+        Some((a, *rng.pick(&[">", ">=", "<", "=", "!="]), *rng.pick(&[0i64, 1, 2, 5])))
+    } else { None };
+    TypedQuery { group, items, wher, having }
+}
+
+/// input biased towards groups in which a column is NULL on every row, and towards single-row groups
+fn gen_typed_input(rng: &mut Rng) -> Vec<String> {
+    let keys: &[&str] = &["a", "b", "c", "ab", ""];
+    // per (key, column) NULL probability in percent
+    let mut nullp = [[0u64; 7]; 5];
+    for k in 0..5 { for c in 0..7 { nullp[k][c] = *rng.pick(&[0u64, 0, 0, 30, 100, 100]); } }
+    let n = match rng.below(5) { 0 => rng.below(3), 1 => rng.below(6), _ => rng.below(24) };
+    let single = rng.below(5); // this key gets at most one row
+    let mut seen_single = false;
+    let mut lines = Vec::new();
+    for _ in 0..n {
+        if rng.chance(1, 15) { lines.push((*rng.pick(&["", "garbage", ";;;;;;", "A;1;2;3;4;;"])).to_owned()); continue; }
+        let ki = rng.below(5);
+        if ki == single { if seen_single { continue; } seen_single = true; }
+        let f = |rng: &mut Rng, c: usize, s: String| if rng.chance(nullp[ki][c], 100) { String::new() } else { s };
+        let v = rng.range(-5, 20).to_string();
+        let w = rng.range(-2, 3).to_string();
+        let r = (*rng.pick(&["0.5", "1.5", "-2.25", "100", "3", "8", "0.25"])).to_owned();
+        let s = (*rng.pick(&["x", "y", "hello", "q q", "10"])).to_owned();
+        let b = (*rng.pick(&["true", "false"])).to_owned();
+        let ts = format!("{}-{:02}-{:02}", rng.pick(&[1999, 2020, 2021]), rng.range(1, 12), rng.range(1, 28));
+        lines.push(format!("{};{};{};{};{};{};{}", keys[ki], f(rng, V, v), f(rng, W, w), f(rng, R, r), f(rng, S, s), f(rng, B, b), f(rng, TS, ts)));
+    }
+    lines
+}
+
+// ---------- the reference (written from the property sentence) ----------
+
+/// value order within one type; NULL below everything
+fn cmp_val(a: &Value, b: &Value) -> Ordering {
+    match (a, b) {
+        (Value::Null, Value::Null) => Ordering::Equal,
+        (Value::Null, _) => Ordering::Less,
+        (_, Value::Null) => Ordering::Greater,
+        (Value::Int(x), Value::Int(y)) => x.cmp(y),
+        (Value::Float(x), Value::Float(y)) => x.0.partial_cmp(&y.0).unwrap_or(Ordering::Equal),
+        (Value::Bool(x), Value::Bool(y)) => x.cmp(y),
+        (Value::String(x), Value::String(y)) => x.as_bytes().cmp(y.as_bytes()),
+        (Value::Timestamp(x), Value::Timestamp(y)) => x.cmp(y),
+        _ => Ordering::Equal,
+    }
+}
+
+fn cmp_key(a: &[Value], b: &[Value]) -> Ordering {
+    for (x, y) in a.iter().zip(b.iter()) {
+        let o = cmp_val(x, y);
+        if o != Ordering::Equal { return o; }
+    }
+    Ordering::Equal
+}
+
+fn col_type(c: usize) -> ValueType {
+    match c { K | S => ValueType::String, V | W => ValueType::Int, R => ValueType::Float, B => ValueType::Bool, _ => ValueType::Timestamp }
+}
+
+/// the aggregate over the argument values of one group (arrival order, NULLs included); `None` = the sentence does not
+/// fix the value (never the case for the typed statements generated here)
+fn ref_aggregate(a: &AggK, rows: &[&Vec<Value>]) -> Value {
+    let vals: Vec<Value> = match a.col() { Some(c) => rows.iter().map(|r| r[c].clone()).collect(), None => Vec::new() };
+    let nn: Vec<Value> = vals.iter().filter(|v| **v != Value::Null).cloned().collect();
+    match a {
+        AggK::CountStar => Value::Int(rows.len() as i64),
+        AggK::Count(_) => Value::Int(nn.len() as i64),
+        AggK::CountDistinct(_) => {
+            let mut d: Vec<&Value> = Vec::new();
+            for v in &nn { if !d.iter().any(|x| cmp_val(x, v) == Ordering::Equal) { d.push(v); } }
+            Value::Int(d.len() as i64)
+        }
+        AggK::Sum(_) => {
+            if nn.is_empty() { return Value::Null; }
+            match &nn[0] {
+                Value::Int(_) => Value::Int(nn.iter().map(|v| if let Value::Int(x) = v { *x } else { 0 }).sum()),
+                _ => Value::Float(Float(nn.iter().map(|v| if let Value::Float(x) = v { x.0 } else { 0.0 }).sum())),
+            }
+        }
+        AggK::Avg(_) => {
+            if nn.is_empty() { return Value::Null; }
+            match &nn[0] {
+                // the INT average truncates (the sentence is silent; as the code does)
+                Value::Int(_) => Value::Int(nn.iter().map(|v| if let Value::Int(x) = v { *x } else { 0 }).sum::<i64>() / nn.len() as i64),
+                _ => Value::Float(Float(nn.iter().map(|v| if let Value::Float(x) = v { x.0 } else { 0.0 }).sum::<f64>() / nn.len() as f64)),
+            }
+        }
+        AggK::Stddev(_, var) => {
+            if nn.is_empty() { return Value::Null; }
+            // population variance from Σx, Σx², n (formula as in the code; the inputs are exactly representable)
+            let xs: Vec<f64> = nn.iter().map(|v| match v { Value::Int(x) => *x as f64, Value::Float(x) => x.0, _ => 0.0 }).collect();
+            let n = xs.len() as f64;
+            let s: f64 = xs.iter().sum();
+            let q: f64 = xs.iter().map(|x| x * x).sum();
+            let variance = (q - (s * s) / n) / n;
+            Value::Float(Float(if *var { variance } else { variance.sqrt() }))
+        }
+        AggK::Min(_) => nn.iter().fold(Value::Null, |cur, v| if cur == Value::Null || cmp_val(v, &cur) == Ordering::Less { v.clone() } else { cur }),
+        AggK::Max(_) => nn.iter().fold(Value::Null, |cur, v| if cur == Value::Null || cmp_val(v, &cur) == Ordering::Greater { v.clone() } else { cur }),
+        AggK::Percentile(_, p) => {
+            if nn.is_empty() { return Value::Null; }
+            let mut sorted = nn.clone();
+            sorted.sort_by(cmp_val);
+            let p: f64 = p.parse().unwrap();
+            let i = ((p * sorted.len() as f64).floor() as usize).min(sorted.len() - 1);
+            sorted[i].clone()
+        }
+        AggK::BoolAnd(_) => if nn.is_empty() { Value::Null } else { Value::Bool(nn.iter().all(|v| *v == Value::Bool(true))) },
+        AggK::BoolOr(_) => if nn.is_empty() { Value::Null } else { Value::Bool(nn.iter().any(|v| *v == Value::Bool(true))) },
+        AggK::ArrayAgg(c) => Value::Array(col_type(*c), vals),
+        AggK::StringAgg(_, d) => {
+            if nn.is_empty() { return Value::Null; }
+            Value::String(nn.iter().map(|v| if let Value::String(s) = v { s.clone() } else { String::new() }).collect::<Vec<_>>().join(d))
+        }
+    }
+}
+
+fn apply_wrap(v: Value, wrap: &Option<(&'static str, i64)>) -> Value {
+    match (v, wrap) {
+        (v, None) => v,
+        (Value::Int(x), Some((op, c))) => Value::Int(match *op { "+" => x + c, "-" => x - c, _ => x * c }),
+        (_, Some(_)) => Value::Null, // NULL op const = NULL
+    }
+}
+
+struct RefOut {
+    rows: Vec<Vec<Value>>,
+    /// a group exists in which no aggregate of the statement creates an entry (finding D10)
+    d10: bool,
+    /// an ARRAY_AGG whose first value in some group is NULL (finding D15)
+    d15: bool,
+}
+
+/// does the engine create a `group_values` entry for this aggregate in a group? (used only to CLASSIFY a deviation)
+fn creates_entry(a: &AggK, rows: &[&Vec<Value>]) -> bool {
+    match a {
+        AggK::Count(c) | AggK::CountDistinct(c) | AggK::Percentile(c, _) | AggK::BoolAnd(c) | AggK::BoolOr(c) | AggK::StringAgg(c, _) =>
+            rows.iter().any(|r| r[*c] != Value::Null),
+        _ => true,
+    }
+}
+
+fn reference(q: &TypedQuery, admitted: &[Vec<Value>]) -> RefOut {
+    let passing: Vec<&Vec<Value>> = admitted.iter().filter(|r| match &q.wher {
+        None => true,
+        Some(Pred::VPos) => matches!(r[V], Value::Int(x) if x > 0),
+        Some(Pred::WNotNull) => r[W] != Value::Null,
+        Some(Pred::KNotA) => matches!(&r[K], Value::String(s) if s != "a"),
+        Some(Pred::BTrue) => r[B] == Value::Bool(true),
+    }).collect();
+    let key_of = |r: &Vec<Value>| -> Vec<Value> { if q.group.is_empty() { vec![Value::Null] } else { q.group.iter().map(|c| r[*c].clone()).collect() } };
+    let mut keys: Vec<Vec<Value>> = Vec::new();
+    for r in &passing {
+        let k = key_of(r);
+        if !keys.iter().any(|x| cmp_key(x, &k) == Ordering::Equal) { keys.push(k); }
+    }
+    keys.sort_by(|a, b| cmp_key(a, b));
+    let mut out = RefOut { rows: Vec::new(), d10: false, d15: false };
+    let mut all_aggs: Vec<&AggK> = q.items.iter().filter_map(|it| match it { Item::Agg(a, _) => Some(a), _ => None }).collect();
+    if let Some((a, _, _)) = &q.having { all_aggs.push(a); }
+    for k in &keys {
+        let g: Vec<&Vec<Value>> = passing.iter().filter(|r| cmp_key(&key_of(r), k) == Ordering::Equal).cloned().collect();
+        if !all_aggs.iter().any(|a| creates_entry(a, &g)) { out.d10 = true; }
+        for a in &all_aggs { if let AggK::ArrayAgg(c) = a { if g[0][*c] == Value::Null { out.d15 = true; } } }
+        if let Some((a, op, c)) = &q.having {
+            let keep = match ref_aggregate(a, &g) {
+                Value::Int(x) => match *op { ">" => x > *c, ">=" => x >= *c, "<" => x < *c, "=" => x == *c, _ => x != *c },
+                _ => false, // a comparison involving NULL does not hold
+            };
+            if !keep { continue; }
+        }
+        out.rows.push(q.items.iter().map(|it| match it {
+            Item::Key(i) => k[*i].clone(),
+            Item::Agg(a, wrap) => apply_wrap(ref_aggregate(a, &g), wrap),
+        }).collect());
+    }
+    out
+}
+
+fn typed_tag(q: &TypedQuery, outcome: &str, nrows: usize, r: &RefOut) -> String {
+    let mut names: Vec<&str> = q.items.iter().map(|it| match it { Item::Key(_) => "key", Item::Agg(a, _) => a.name() }).collect();
+    names.sort();
+    names.dedup();
+    format!("typed:{}|g{}|h{}|w{}|{}|rows{}|d10{}|d15{}", names.join(","), q.group.len(), q.having.is_some() as u8, q.wher.is_some() as u8, outcome, nrows.min(3), r.d10 as u8, r.d15 as u8)
+}
+
 pub fn run(p: &Params) -> Run {
     let mut run = Run::new("C04");
     let mut rng = Rng::new(p.seed ^ 0x04);
-    let n = p.n(2500, 120_000);
+    // ---- stream 1: free-form statements, correspondence + Lean specification ----
+    let n = p.n(1800, 80_000);
     let opts = QueryOpts { allow_limit: false, allow_distinct: false, allow_join: false, aggregate: Some(true) };
     for i in 0..n {
         let sch = gen_schema(&mut rng);
@@ -40,8 +390,7 @@ pub fn run(p: &Params) -> Run {
         let nlines = match rng.below(4) { 0 => rng.below(3), 1 => rng.below(8), _ => rng.below(30) };
         let null_pct = *rng.pick(&[5u64, 20, 50, 80]);
         let lines = gen_input(&mut rng, nlines, null_pct, i % 7 == 0);
-        let content = join_lines(&lines);
-        let files = vec![content];
+        let files = vec![join_lines(&lines)];
         let result = run_files(&prepared, &files);
         let case = match batch_case(&prepared, b"", &files, None) { Some(c) => c, None => continue };
         run.count(&format!("status:{}", result.status));
@@ -53,6 +402,46 @@ pub fn run(p: &Params) -> Run {
         // the case description travels with the case so that spec failures can be reported with the SQL text
         run.case_with_desc(case, result.wire(), tag, format!("query={} input={:?}", gq.text, lines));
     }
-    run.notes.push("aggregate statements (1-4 select items mixing keys, aggregates, transforms; WHERE/GROUP BY/HAVING) over 0-30 lines with 5-80% NULL fields".to_owned());
+    // ---- stream 2: typed statements, independent reference ----
+    let m = p.n(1800, 80_000);
+    let tables = parse_tables(C04_DEF).expect("C04 definition");
+    let table = tables.get("t").expect("table t");
+    for _ in 0..m {
+        let q = gen_typed_query(&mut rng);
+        let text = q.sql();
+        let lines = gen_typed_input(&mut rng);
+        let desc = format!("defs={} query={} input={:?}", C04_DEF, text, lines);
+        let prepared = match prepare(C04_DEF, &text) { Ok(p) => p, Err(e) => { run.count(&format!("typed-rejected:{}", e.split(':').next().unwrap_or(""))); continue; } };
+        let admitted: Vec<Vec<Value>> = lines.iter().map(|l| table.extract(l).columns).filter(|r| r.iter().any(|v| *v != Value::Null)).collect();
+        let expected = reference(&q, &admitted);
+        let got = run_engine_batch(C04_DEF, &text, &lines);
+        run.oracle_checks += 1;
+        let (outcome, nrows) = match &got {
+            RowsOutcome::Rows { rows, .. } => {
+                if *rows != expected.rows {
+                    let class = if expected.d15 { "D15:array_agg-first-value-null" } else if expected.d10 { "D10:group-without-value-entry" } else { "aggregate-table-differs-from-reference" };
+                    run.fail(desc.clone(), class, format!("implementation table {:?} but the rows of each group give {:?}", rows, expected.rows));
+                }
+                ("ok", rows.len())
+            }
+            RowsOutcome::Error(e) => {
+                let class = if expected.d15 { "D15:array_agg-first-value-null" } else { "aggregate-error-on-typed-statement" };
+                run.fail(desc.clone(), class, format!("implementation reports `{}` but the rows of each group give {:?}", e, expected.rows));
+                ("err", 0)
+            }
+            RowsOutcome::Panic(msg) => {
+                run.fail(desc.clone(), "panic:aggregate", msg.clone());
+                ("panic", 0)
+            }
+        };
+        run.count(&format!("typed:{}", outcome));
+        // the same case through FileExecutor for the correspondence with the model (and the Lean specification)
+        let files = vec![join_lines(&lines)];
+        let result = run_files(&prepared, &files);
+        if let Some(case) = batch_case(&prepared, b"", &files, None) {
+            run.case_with_desc(case, result.wire(), typed_tag(&q, outcome, nrows, &expected), desc);
+        }
+    }
+    run.notes.push("stream 1: free-form aggregate statements (1-4 select items mixing keys, aggregates, transforms; WHERE/GROUP BY/HAVING) over 0-30 lines with 5-80% NULL fields; stream 2: typed statements over TEXT/INT/REAL/BOOLEAN/TIMESTAMP columns with per-(group, column) NULL rates of 0/30/100%, single-row groups, p in {0, .5, .99, 1}, HAVING with hidden aggregates, arithmetic wrappers — compared with an independent reference".to_owned());
     run
 }
